@@ -56,7 +56,7 @@ class C20(Prop):
                   'non-trivial = >=1 parameter or non-empty contents; distinct = distinct descriptor')
 
     def streams(self, rng, tier):
-        n = 800 if tier == 'quick' else scale(200000)
+        n = 2400 if tier == 'quick' else scale(200000)
         fns, ctors, blocks, misc = [], [], [], []
         for _ in range(n):
             prefix = rng.choice(['', '', 'virtual', 'static'])
